@@ -131,3 +131,91 @@ package network
 //@   loop 0: invariant forall q1 int, q2 int :: {k.secret[q1], k.secret[q2]} 0 <= q1 && q1 < q2 && q2 < i ==> ref(k.secret[q1]) != ref(k.secret[q2])
 //@   loop 0: invariant forall a int :: {arr(b)[a]} 0 <= a && a < len(b) ==> arr(b)[a] == ghost(r_arr)[old(ghost(r_pos)) + a]
 //@   loop 1: invariant -1 <= rangeindex && rangeindex < len(k.secret)
+
+// ---------------------------------------------------------------------------
+// C32: a peer gets an identity only by proving possession of its key for this session
+// ---------------------------------------------------------------------------
+
+//@ property C32
+// LRU list of the identity cache. The list is linked through pointers into the nodes themselves
+// (**peerID), which the engine does not model; the three list operations are trusted to touch
+// only the links and the counters, never a node's Address.
+//@ func (c *peerIDCache) remove(p)
+//@   trusted
+//@   modifies c.front, c.pLast, c.len, all(peerID.next), all(peerID.pPrev)
+//@ func (c *peerIDCache) add(p)
+//@   trusted
+//@   modifies c.front, c.pLast, c.len, all(peerID.next), all(peerID.pPrev)
+//@ func (c *peerIDCache) moveToBack(p)
+//@   trusted
+//@   modifies c.front, c.pLast, c.len, all(peerID.next), all(peerID.pPrev)
+
+// identity of a PeerID value: the address it wraps
+//@ spec pidOK(id) = typeof(id) == typeid(ptr_peerID) && as(ptr_peerID, id) != nil
+//@ spec pidAddr(id) = as(ptr_peerID, id).Address
+//@ spec cacheOK(c) = c != nil && c.cache != nil && (forall k str :: {hasmap(c.cache)[k]} hasmap(c.cache)[k] ==> valmap(c.cache)[k] != nil && allocated(valmap(c.cache)[k]) && addr_key(valmap(c.cache)[k].Address) == k)
+
+// The cache hands out an identity object for exactly the address asked for and never rewrites
+// the address of an identity object that already exists (frame: no Address field is written).
+//@ func (c *peerIDCache) Get(addr) (id)
+//@   arith int
+//@   nosafety
+//@   opt nomerge
+//@   requires cacheOK(c) && addr != nil
+//@   modifies c.cache[*], c.front, c.pLast, c.len, all(peerID.next), all(peerID.pPrev)
+//@   ensures [same_address] pidOK(id) && addr_key(pidAddr(id)) == addr_key(addr)
+//@   ensures [inv] cacheOK(c)
+
+// VerifySignature yields an identity only for a well-formed key whose signature over the hash of
+// exactly the given content verifies, and the identity is the address of that key.
+//@ smt all (declare-ghost verified_id Iface)
+//@ spec proved(id, pkb, sgb, cb) = pk_valid(pkb) && ecdsa_verify(sig_parse(sgb), sha3(cb), pk_parse(pkb)) && pidOK(id) && addr_id(pidAddr(id)) == acc_addr(pk_parse(pkb))
+//@ func NewPeerIDFromPublicKey(k) (id)
+//@   arith int
+//@   nosafety
+//@   use addr_key_id
+//@   requires k != nil && cacheOK(cache)
+//@   modifies cache.cache[*], cache.front, cache.pLast, cache.len, all(peerID.next), all(peerID.pPrev)
+//@   ensures [from_key] pidOK(id) && addr_id(pidAddr(id)) == acc_addr(pk_bytes(ref(k)))
+//@   ensures [inv] cacheOK(cache)
+//@ func (a *Authenticator) VerifySignature(publicKey, signature, content) (id, err)
+//@   arith int
+//@   nosafety
+//@   requires cacheOK(cache) && ErrInvalidSignature != nil
+//@   modifies cache.cache[*], cache.front, cache.pLast, cache.len, all(peerID.next), all(peerID.pPrev)
+//@   opt ghost:verified_id id
+//@   ensures [proved] err == nil ==> proved(id, seq(publicKey), seq(signature), seq(content))
+//@   ensures [noid] err != nil ==> id == nil
+//@   ensures [complete] err == nil <==> (pk_valid(seq(publicKey)) && (len(signature) == 64 || len(signature) == 65) && ecdsa_verify(sig_parse(seq(signature)), sha3(seq(content)), pk_parse(seq(publicKey))))
+//@   ensures [inv] cacheOK(cache)
+
+// Handshake handlers: the signature is checked against the secret of this very session
+// (p.secureKey.extra), the own proof is a signature over the same secret, and the only identity
+// ever assigned to the peer is the one VerifySignature just returned (nil when it failed).
+// The identity cache is private to peerid.go: calls with unknown effects are assumed not to touch it.
+//@ func (p *Peer) setID(id)
+//@   trusted
+//@   modifies p.id
+//@   ensures p.id == id
+//@ func (a *Authenticator) Signature(content) (sb)
+//@   trusted
+//@   pure
+//@ func (a *Authenticator) handleSignatureRequest(pkt, p)
+//@   arith int
+//@   nosafety
+//@   modifies *
+//@   opt inline-none
+//@   opt protect cache, ErrInvalidSignature, cache.cache[*], cache.cache, all(peerID.Address)
+//@   requires a != nil && p != nil && cacheOK(cache) && ErrInvalidSignature != nil
+//@   callpre VerifySignature: content == p.secureKey.extra
+//@   callpre Signature: content == p.secureKey.extra
+//@   callpre setID: id == nil || id == ghost(verified_id)
+//@ func (a *Authenticator) handleSignatureResponse(pkt, p)
+//@   arith int
+//@   nosafety
+//@   modifies *
+//@   opt inline-none
+//@   opt protect cache, ErrInvalidSignature, cache.cache[*], cache.cache, all(peerID.Address)
+//@   requires a != nil && p != nil && cacheOK(cache) && ErrInvalidSignature != nil
+//@   callpre VerifySignature: content == p.secureKey.extra
+//@   callpre setID: id != nil && id == ghost(verified_id)
